@@ -16,7 +16,7 @@ E2_LIMB = ["fe25519-51-x25519", "x25519-ladder-rfc7748", "x25519-invert", "x2551
 
 
 LEVEL_TEXT = LEVEL_TEXT + (" Field kernels (E2 irsym limb mode): the compiled fe25519_mul/sq/mul32/add/sub of the X25519 unit are executed on LLVM IR with limbs as integer polynomials + intervals; "
-              "result == the field operation mod 2^255-19 for all limbs up to 2^54 (no machine wrap-around, output bounds), re-checked by z3 as a polynomial identity.")
+              "result == the field operation mod 2^255-19 for all limbs up to 2^54 (no machine wrap-around, output bounds), re-checked by z3 as a polynomial identity. X25519 against RFC 7748 (E2 ring mode): the Montgomery ladder of the real x25519_ref10.c is decided inductively over its loop (each iteration == one RFC 7748 ladder step as polynomial identities over GF(2^255-19), swap selector == k_t xor k_(t+1) of the clamped scalar), fe25519_invert == z^(p-2) by exponent tracking, limb bounds inductive through the loop (limb mode), cswap/tobytes/frombytes by CBMC.")
 
 
 def obligations(tier):
